@@ -518,6 +518,7 @@ pub fn def() -> PropDef {
             cases_quick: 60_000,
             cases_thorough: 1_000_000,
             max_shrink_iters: 4000,
+            limit_factor: 1,
             strategy: case_strategy,
             check: run_case,
         })],
